@@ -288,6 +288,40 @@ fn oracle_episode(w: &mut World, history: &[String], out: &mut Out) {
     }
     // (2) convergence: same-base replicas merged both ways hold identical op sets; merge is idempotent
     let ids: Vec<u64> = w.regs.keys().copied().collect();
+    // a replica merged with an identical copy of itself is accepted and unchanged; replicas of one base
+    // register whose union stays within the entry limit accept each other (shared history counted once)
+    for &a in &ids {
+        let mut ra = w.regs[&a].clone();
+        let before = ra.ops().clone();
+        if before.len() <= MAX_ENTRIES {
+            let r = ra.merge(&w.regs[&a]);
+            if r.is_err() || ra.ops() != &before {
+                out.oracle_fail("merge-self-accepted", &hist, &format!("replica {a} ({} ops) merged with an identical copy: {r:?}, set changed: {}", before.len(), ra.ops() != &before));
+            }
+            if !w.reg_meta[&a].3 {
+                let mut rv = w.regs[&a].clone();
+                let base_sig_ok = rv.owner().verify(&signature_of(&rv), rv.base_register().bytes().expect("bytes"));
+                if base_sig_ok {
+                    let r = rv.verified_merge(&w.regs[&a]);
+                    if r.is_err() {
+                        out.oracle_fail("merge-self-accepted", &hist, &format!("untainted replica {a} ({} ops) verified_merge with an identical copy: {r:?}", before.len()));
+                    }
+                }
+            }
+        }
+        for &b in &ids {
+            if a == b || w.regs[&a].base_register() != w.regs[&b].base_register() {
+                continue;
+            }
+            let union: std::collections::BTreeSet<_> = w.regs[&a].ops().iter().chain(w.regs[&b].ops().iter()).cloned().collect();
+            if union.len() <= MAX_ENTRIES {
+                let mut ra = w.regs[&a].clone();
+                if let Err(e) = ra.merge(&w.regs[&b]) {
+                    out.oracle_fail("merge-accepts-overlap", &hist, &format!("replicas {a} ({} ops) <- {b} ({} ops), union {} ≤ limit: merge refused: {e:?}", w.regs[&a].ops().len(), w.regs[&b].ops().len(), union.len()));
+                }
+            }
+        }
+    }
     for &a in &ids {
         for &b in &ids {
             if a >= b {
